@@ -356,7 +356,8 @@ def gen_sched(rng, est_steps=3000):
     return dict(strategy=strategy, gran=gran, salt=rng.randrange(1 << 30))
 
 
-def gen_call_faults(rng, world, p_fail=0.25, excs=("E1", "E1", "E2", "B1", "SystemExit", "KeyboardInterrupt"),
+def gen_call_faults(rng, world, p_fail=0.25,
+                    excs=("E1", "E1", "E2", "B1", "SystemExit", "KeyboardInterrupt", "CallError", "NodeError"),
                     flaky=False):
     calls = {}
     for n in world["nodes"]:
